@@ -236,7 +236,132 @@ def check_generator(item):
     return out
 
 
+def real_parse_override(ctx, interp, args, kwargs):
+    from pyab_experiment.utils.wraper_functions import parse_source
+    import contextlib
+    import io
+    text = args[0] if args else kwargs.get("text")
+    if not isinstance(text, str):
+        raise common.Inconclusive("parse_source called with a symbolic text")
+    with contextlib.redirect_stdout(io.StringIO()), contextlib.redirect_stderr(io.StringIO()):
+        return parse_source(text)
+
+
+def run_evaluator(prog, typing, text):
+    """ExperimentEvaluator(text)(**fields) executed symbolically end to end (real parser run natively on the
+    concrete text; code generator, compile/exec, recompile, __call__, generated function interpreted; the
+    choice function reports (key, population, weights))."""
+    env, spl, kwargs = keyrun.make_inputs(prog, {})
+    for n in prog.splitters:
+        kwargs[n] = keyrun.splitter_value(n, typing[n])
+
+    def setup(it):
+        it.call_overrides["parse_source"] = real_parse_override
+        it.call_overrides["pyab_experiment.binning.binning:deterministic_choice"] = harness.choice_stub
+
+    def entry(it):
+        mod = it.import_module(harness.EVAL_MODULE)
+        ev = it.call(mod.vars["ExperimentEvaluator"], [text], {})
+        return it.call(ev, [], dict(kwargs))
+    run = api.run(entry, opts={"float_mode": "real", "prune": True, "abstract_int_str": True}, setup=setup)
+    return run, kwargs, env
+
+
+def check_evaluator(item):
+    bname, prog, timeout_ms = item
+    common.setup_path()
+    tally = Tally()
+    out = {"status": "ok", "witnesses": [], "paths": 0, "reach": 0, "encoded": {}, "stubs": [], "text": None,
+           "name": "evaluator"}
+    text = dsl.program_text(prog)
+    out["text"] = text
+    runs = {}
+    for sort in ("int", "float", "str"):
+        typing = {n: sort for n in prog.splitters}
+        try:
+            runs[sort] = run_evaluator(prog, typing, text)
+        except common.Inconclusive as e:
+            out["status"] = "inconclusive"
+            out["note"] = str(e)
+            out["tally"] = tally
+            return out
+        run = runs[sort][0]
+        out["paths"] += len(run.paths)
+        out["encoded"].update(run.encoded_digest())
+        out["stubs"] = sorted(set(out["stubs"]) | set(run.notes))
+    cached = None
+    for sort, (run, kwargs, env) in runs.items():
+        for p in run.paths:
+            if isinstance(p.outcome, Unsup):
+                r, m = common.check(tally, p.conds, timeout_ms)
+                if r != "unsat":
+                    out["status"] = "inconclusive"
+                    out["note"] = "evaluator path leaves the subset: " + p.outcome.reason
+                continue
+            caches = [e for e in p.effects if e[0] == "cache-store"]
+            others = [e for e in p.effects if e[0] not in ("cache-store",)]
+            worldly = [n for n in p.notes if n.startswith("world:")]
+            r, m = common.check(tally, p.conds, timeout_ms, label="C01 evaluator path reachable")
+            if r == "unsat":
+                continue
+            out["reach"] += 1
+            if others or worldly:
+                rows = sample_fields(prog, {n: sort for n in prog.splitters})
+                for r_ in rows:
+                    for k in env:
+                        r_.setdefault(k, 1)
+                out["witnesses"].append({"kind": "process_independence", "text": text,
+                                         "rows": [{k: enc(v) for k, v in r_.items()} for r_ in rows],
+                                         "why": "construction + evaluation writes persistent state or reads process state: %s %s"
+                                                % ([(e[0], e[2]) for e in others][:3], worldly[:1]), "plain": ""})
+            if caches:
+                cached = caches[0][2]
+    if cached is not None:
+        # a cache keyed by ==/hash of the arguments: can two calls whose splitter values are == but print
+        # differently (int 1 / float 1.0) get different assignments when evaluated on their own?
+        (ra, ka, ea), (rb, kb, eb) = runs["int"], runs["float"]
+        link = []
+        for n in prog.splitters:
+            if hasattr(ka[n], "term") and hasattr(kb[n], "term"):
+                link.append(z3.ToReal(ka[n].term) == kb[n].term)
+        found = None
+        for pa in ra.paths:
+            for pb in rb.paths:
+                if isinstance(pa.outcome, Unsup) or isinstance(pb.outcome, Unsup):
+                    continue
+                d = relational.differ_term(pa.outcome, pb.outcome)
+                if d is False:
+                    continue
+                cons = list(pa.conds) + list(pb.conds) + link + ([] if d is True else [d])
+                r, m = common.check(tally, cons, timeout_ms, label="C01 cache conflation: ==-equal arguments of different type, "
+                                    "different assignment", keep_sample=True)
+                if r == "sat":
+                    found = (m, pa, pb)
+                    break
+            if found:
+                break
+        if found:
+            m = found[0]
+            fa = {k: harness.model_value(m, v) for k, v in ka.items()}
+            fb = dict(fa)
+            for n in prog.splitters:
+                fb[n] = float(fa[n]) if isinstance(fa[n], int) else fa[n]
+            out["witnesses"].append({"kind": "call_history", "text": text,
+                                     "calls": [{k: enc(v) for k, v in fa.items()}, {k: enc(v) for k, v in fb.items()}],
+                                     "why": "results are memoised on ==-equal arguments (%s): a call with %r is answered from the "
+                                            "entry of %r although the two hash different keys" % (
+                                                cached, {n: fb[n] for n in prog.splitters}, {n: fa[n] for n in prog.splitters}),
+                                     "plain": ""})
+        else:
+            out["status"] = "inconclusive"
+            out["note"] = "a cache wrapper is installed (%s); no conflation found by the int/float query" % cached
+    out["tally"] = tally
+    return out
+
+
 def _dispatch(a):
+    if a[0] == "evaluator":
+        return check_evaluator(a[1:])
     if a[0] == "chain":
         return check_chain(a[1:])
     if a[0] == "gen":
@@ -259,6 +384,9 @@ def main(tier):
     items = [("call", timeout_ms)]
     fam = sf.splitter_family(tier, common.seed())
     gens = fam if tier == "thorough" else fam[:60]
+    evs = [x for x in fam if x[0] in ("plain", "cond", "nested")]
+    for bname, prog in (evs if tier == "thorough" else evs[:12]):
+        items.append(("evaluator", bname, prog, timeout_ms))
     for bname, prog in gens:
         items.append(("gen", bname, prog, timeout_ms))
     chains = [x for x in fam if x[0] in ("plain", "cond")]
